@@ -31,10 +31,12 @@ type exCase struct {
 	Result  [][]json.RawMessage `json:"result"`
 }
 
-var exIdents = []string{"level", "x_1", "A9_", "_u", "fileName", "T", "Logger", "e", "x", "E5", "a0xF", "true", "nil"}
-var exInts = []string{"42", "-17", "+5", "0xFF", "007", "0", "0x0", "9223372036854775808", "-0"}
+var exIdents = []string{"level", "x_1", "A9_", "_u", "fileName", "T", "Logger", "e", "x", "E5", "a0xF", "true", "nil",
+	"abcdefghijklmnopqrstuvwxyz", "ABCDEFGHIJKLMNOPQRSTUVWXYZ", "_0123456789", "f", "F", "xf", "typeOf"}
+var exInts = []string{"42", "-17", "+5", "0xFF", "007", "0", "0x0", "9223372036854775808", "-0", "0xff", "0xdeadbeef", "0x1f", "0xCafe",
+	"0x0123456789abcdefABCDEF", "1234567890", "-9876543210"}
 var exIdx = []string{"0", "1", "12", "007"}
-var exFloats = []string{"3.14", "-0.5", "+2E10", ".25e-2", "1e5", "6.0E+3", "-.5", "0.0", "1E-9", "12.50e+02"}
+var exFloats = []string{"3.14", "-0.5", "+2E10", ".25e-2", "1e5", "6.0E+3", "-.5", "0.0", "1E-9", "12.50e+02", "0123456789.0123456789e-0123456789", "9.9"}
 
 type exStr struct{ lit, val string }
 
@@ -42,7 +44,7 @@ var exStrings = []exStr{
 	{`"hello"`, "hello"}, {`""`, ""}, {`"a\"b"`, `a"b`}, {`"back\\slash"`, `back\slash`}, {`"sl\/ash"`, "sl/ash"},
 	{`"\b\f\n\r\t"`, "\b\f\n\r\t"}, {"\"raw \n line break\"", "raw \n line break"}, {"\"tab\there\"", "tab\there"},
 	{`"ünï ✓ 日本"`, "ünï ✓ 日本"}, {`"{ , = } [ ] ."`, "{ , = } [ ] ."}, {`"//comment?"`, "//comment?"}, {`"'single'"`, "'single'"},
-	{`"${prop}"`, "${prop}"}, {`"\\\""`, `\"`},
+	{`"${prop}"`, "${prop}"}, {"\" !#$%&'()*+,-./0123456789:;<=>?@ABCDEFGHIJKLMNOPQRSTUVWXYZ[]^_`abcdefghijklmnopqrstuvwxyz{|}~\"", " !#$%&'()*+,-./0123456789:;<=>?@ABCDEFGHIJKLMNOPQRSTUVWXYZ[]^_`abcdefghijklmnopqrstuvwxyz{|}~"}, {`"\\\""`, `\"`},
 	// an escaped backslash followed by a letter that would itself be an escape
 	{`"C:\\new\\table\\report.log"`, `C:\new\table\report.log`}, {`"\\n"`, `\n`}, {`"\\\\"`, `\\`}, {`"\\b\\f\\r\\/"`, `\b\f\r\/`},
 	{`"\\\n"`, "\\\n"},
@@ -86,6 +88,7 @@ func exRunCase(r *hx.Result, rng *rand.Rand, c *exCase) {
 	for i, a := range []string{"a", "b", "T", "U"} {
 		idmap[a] = exIdents[perm[i]]
 	}
+	idmap["type"] = "type"
 	vals := map[string]string{} // token text rendering of scalar tokens -> value text, per occurrence
 	var sb strings.Builder
 	conc := make([]string, len(c.Toks)) // value text contributed by token i (for keys / values)
